@@ -37,7 +37,7 @@ COMPONENTS = {
     "real": ["EnOptConfig validation", "EnsembleEvaluator", "EnsembleOptimizer", "filters", "estimators", "plan steps", "results"],
     "stub": ["SimEvaluator", "sim/scripted optimizer", "sim/inject sampler"],
 }
-PROBES = ["twin_gradients_compared", "flags_compared", "gradient_flags_compared", "values_compared", "gradients_compared",
+PROBES = ["evaluator_object_kept", "twin_gradients_compared", "flags_compared", "gradient_flags_compared", "values_compared", "gradients_compared",
           "too_few_functions", "too_few_gradients", "perturbation_threshold_failed_realization",
           "all_realizations_failed", "mask_with_failures", "ill_conditioned_skipped"]
 
@@ -71,8 +71,37 @@ def _small(rng: random.Random, counter: int, tier: str) -> dict:
     return scn
 
 
+def _sequence(rng: random.Random) -> dict:
+    """One EnsembleEvaluator object kept by the user and asked several times at one point while the set of failing
+    realizations changes from request to request: every answer excludes exactly the realizations that failed in the
+    evaluations it is made of."""
+    nr = rng.randint(2, 4)
+    scn = gen.base_scenario(rng, PROP, nr=nr, npert_max=3, nv_max=3, no_max=2, nc_max=1, merge=False, stddev=False, filters=False,
+                            transforms=False, linear=False, inject_p=0.8, script_len=1, zero_real_weights=False, step="optimizer")
+    cfg = scn["configs"][0]
+    cfg["realizations"]["realization_min_success"] = 1
+    npert = cfg["gradient"]["number_of_perturbations"]
+    cfg["gradient"]["perturbation_min_success"] = rng.randint(1, npert)
+    x = [float(v) for v in cfg["variables"]["initial_values"]]
+    reqs = []
+    for _ in range(rng.randint(2, 4)):
+        faults = []
+        for r in rng.sample(range(nr), rng.randint(0, nr - 1)):
+            faults.append({"kind": "nan", "eval": None, "real": r, "pert": rng.choice([-1, -1, rng.randrange(npert)]), "col": None})
+        reqs.append({"op": rng.choice(["f", "fg", "g"]), "x": list(x), "faults": faults})
+        if rng.random() < 0.2:
+            x = [v + 0.5 for v in x]
+    scn["requests"] = reqs
+    scn["faults"] = []
+    scn["entry"] = "evaluator_object_sequence"
+    scn["stratum"] = "evaluator-object-kept"
+    return scn
+
+
 def generate(seed: int, index: int, tier: str) -> dict:
     rng = random.Random(seed)
+    if index % 14 == 5:
+        return _sequence(rng)
     if index % 2 == 0:
         return _small(rng, index // 2, tier)
     merge = rng.random() < 0.3
@@ -103,6 +132,8 @@ def execute(scn: dict) -> dict:
 
     cfg0 = scn["configs"][0]
     compared = 0
+    if scn.get("entry") == "evaluator_object_sequence":
+        probe("evaluator_object_kept")
     partial_failed: set[int] = set()
     first_deficient_call = None
     for ln in oracles.linked_results(ctx):
